@@ -450,6 +450,49 @@ PreviousBucket(Bucket **current, Bucket *first)
     return result;
 }
 
+#ifdef BTREES_VERIF
+/* Verification hook (compiled only with -DBTREES_VERIF, which setup.py adds
+ * when the environment has BTREES_VERIF=1): lets a test harness make chosen
+ * calls of malloc/realloc made by this module fail, to explore
+ * out-of-memory paths.  Calls are numbered from 0 since the last arming.
+ */
+static long verif_alloc_calls = 0;
+static long verif_alloc_fail1 = -1;
+static long verif_alloc_fail2 = -1;
+static int verif_alloc_sticky = 0;
+
+static int
+verif_alloc_fails(void)
+{
+    long n = verif_alloc_calls++;
+    if (n == verif_alloc_fail1 || n == verif_alloc_fail2)
+        return 1;
+    if (verif_alloc_sticky && verif_alloc_fail1 >= 0 && n > verif_alloc_fail1)
+        return 1;
+    return 0;
+}
+
+#define malloc(SZ) (verif_alloc_fails() ? NULL : malloc(SZ))
+#define realloc(P, SZ) (verif_alloc_fails() ? NULL : realloc((P), (SZ)))
+
+/* _verif_alloc(fail1=-1, fail2=-1, sticky=0) -> allocation calls counted
+ * since the previous arming.  Negative indices disarm.
+ */
+static PyObject *
+verif_alloc_m(PyObject *ignored, PyObject *args)
+{
+    long f1 = -1, f2 = -1, seen = verif_alloc_calls;
+    int sticky = 0;
+    if (!PyArg_ParseTuple(args, "|lli", &f1, &f2, &sticky))
+        return NULL;
+    verif_alloc_calls = 0;
+    verif_alloc_fail1 = f1;
+    verif_alloc_fail2 = f2;
+    verif_alloc_sticky = sticky;
+    return PyLong_FromLong(seen);
+}
+#endif /* BTREES_VERIF */
+
 static void *
 BTree_Malloc(size_t sz)
 {
@@ -544,6 +587,12 @@ static struct PyMethodDef module_methods[] = {
    "\n"
    "Each element of seq must be an integer set, or convertible to one\n"
    "via the set iteration protocol.  The union returned is an IISet."
+  },
+#endif
+#ifdef BTREES_VERIF
+  {"_verif_alloc", (PyCFunction) verif_alloc_m, METH_VARARGS,
+   "_verif_alloc(fail1=-1, fail2=-1, sticky=0)\n"
+   "verification hook: arm allocation failures, return calls counted"
   },
 #endif
   {NULL,                NULL}           /* sentinel */
